@@ -84,7 +84,7 @@ def run(ctx):
             for bb, t in b.calls(r"Iterator(<[^>]*>)?::take$|::take$"):
                 recv = origin_names(b, t["args"][0])
                 if not any(re.search(r"::(filter|filter_map)$", r_) for r_ in recv):
-                    bad.append((b.name.rsplit("::", 1)[1], sorted(r_.rsplit("::", 1)[-1] for r_ in recv)))
+                    bad.append((b.name.rsplit("::", 1)[-1], sorted(r_.rsplit("::", 1)[-1] for r_ in recv)))
         ctx.ob("scan_keys|limit-after-presence-filter", not bad and lens >= 1,
                f"limit tested against the collected keys ({lens} len() test(s)); no take() ahead of the presence filter" if not bad else
                f"take() applied to unfiltered entries {bad}: absent tracked entries consume the limit", ctx.body(x).loc())
